@@ -282,6 +282,7 @@ Definition build_string (x : exts) : res sproto :=
            | Some (KeyFormat f) =>
                if N.eqb f 3 then ROk (Some KFId62)
                else if N.eqb f 2 then ROk (Some KFUuid)
+               else if N.eqb f 0 then ROk (Some KFInformal)   (* FORMAT_UNSPECIFIED: informal *)
                else RErr "unknown key format"
            end) (fun kf =>
     let entity :=
